@@ -50,7 +50,7 @@ fn classify_panic(msg: &str, loc: &str) -> (String, String) {
     if msg.contains("range end index") || msg.contains("out of range for slice") && msg.contains("end") {
         return c("drain-left", "slice-left-past-end-panics");
     }
-    if msg.contains("range start index") { return c("drain-right", "slice-right-past-end-panics"); }
+    if msg.contains("range start index") || msg.contains("slice index starts at") { return c("drain-right", "slice-right-past-end-panics"); }
     if msg.contains("attempt to multiply with overflow") { return c("mul", "ptr-slice-size-multiplication-overflow-panics"); }
     if msg.contains("attempt to add with overflow") { return c("add", "ptr-slice-address-overflow-panics"); }
     if msg.contains("capacity overflow") { return c("cap", "ptr-slice-capacity-overflow-panics"); }
@@ -221,7 +221,19 @@ fn exec_cmd(mode: &str, line: &str, pw: &mut ParseWorker, out: &mut Out) -> Stri
     let ans = if let Some(rest) = a.strip_prefix("panic\t") {
         let mut it = rest.splitn(2, '\t');
         let (msg, loc) = (it.next().unwrap_or(""), it.next().unwrap_or(""));
-        let (cls, key) = classify_panic(msg, loc);
+        let (cls, mut key) = classify_panic(msg, loc);
+        // independent of the model: a decimal-token panic on a line without any decimal run >= 2^32 (the narrowest
+        // numeric type of the grammar), or a hex-token panic without a hex run >= 2^64, is not one of the recorded defects
+        let runs = |pred: fn(&char) -> bool| -> Vec<String> {
+            let mut v = vec![]; let mut cur = String::new();
+            for c in line.chars() { if pred(&c) { cur.push(c); } else if !cur.is_empty() { v.push(std::mem::take(&mut cur)); } }
+            if !cur.is_empty() { v.push(cur); }
+            v
+        };
+        let big = |s: &str, radix: u32, limit: u128| { let t = s.trim_start_matches('0'); t.len() > 24 || u128::from_str_radix(if t.is_empty() { "0" } else { t }, radix).map(|v| v >= limit).unwrap_or(true) };
+        if (cls == "tok" || cls == "usize") && !runs(|c| c.is_ascii_digit()).iter().any(|r| big(r, 10, 1 << 32)) { key = "cmd-numeric-token-in-range-panics".into(); }
+        if cls == "neg" && !line.contains("9223372036854775808") { key = "cmd-int-literal-negation-in-range-panics".into(); }
+        if cls == "hex" && !runs(|c| c.is_ascii_hexdigit()).iter().any(|r| big(r, 16, 1 << 64)) { key = "cmd-hex-token-in-range-panics".into(); }
         out.count(&format!("cmd.outcome.panic:{cls}"), 1);
         out.oracle_fail(&key, &format!("Command::parse({line:?}) panics: {msg} (at {loc})"),
                         json!({"line": line, "panic": msg, "location": loc, "replay": format!("C08 cmd x {}", enc_str(line))}));
@@ -411,7 +423,7 @@ fn gen_slice(rng: &mut Rng, n: u64, quirks: &str, out: &mut Out, req: &mut Vec<S
     }
 }
 
-struct LiveSession { prog: std::path::PathBuf, w: Option<live::Worker> }
+struct LiveSession { prog: std::path::PathBuf, w: Option<live::Worker>, declared: Vec<String> }
 impl LiveSession {
     fn ask(&mut self, q: &str, out: &mut Out, what: &str) -> String {
         out.oracle_evals += 1;
@@ -469,10 +481,12 @@ pub fn exec(req: &[String], out: &mut Out) {
             ["C08", "cmd", mode @ ("x" | "n"), l] if l.starts_with('x') => exec_cmd(mode, &dec_str(l), &mut pw, out),
             ["C08", "new", "slice", "asfound" | "repaired"] => {
                 if let Some(mut s) = live.take() { if let Some(w) = s.w.take() { w.reap(); } }
-                live = Some(LiveSession { prog: live::ensure_prog(), w: None });
+                live = Some(LiveSession { prog: live::ensure_prog(), w: None, declared: vec![] });
                 "ok".to_string()
             }
-            ["C08", "var", _, "array" | "vec" | "ptr", _, _] => "ok".to_string(),
+            ["C08", "var", name, "array" | "vec" | "ptr", _, _] if live.is_some() => { live.as_mut().unwrap().declared.push(name.to_string()); "ok".to_string() }
+            // a query on a variable whose ground truth was not declared is ill-formed (both sides answer bad-op)
+            ["C08", "slice", _, name, _, _] | ["C08", "index", name, _] if !live.as_ref().map(|s| s.declared.iter().any(|d| d == name)).unwrap_or(false) => "bad-op".into(),
             ["C08", "slice", mode @ ("x" | "n"), name, l, r] if live.is_some() => {
                 let a = live.as_mut().unwrap().ask(&format!("slice {name} {l} {r}"), out, &format!("{name}[{l}..{r}]").replace('-', ""));
                 if *mode == "n" && (a.starts_with("ok") || a == "err") { "nopanic".into() } else { a }
